@@ -21,6 +21,8 @@ pub trait SchedHook: Send + Sync {
   fn after_park(&self);
   /// The calling thread is about to unpark `target`.
   fn on_unpark(&self, target: ThreadId);
+  /// The calling thread reads the cache clock (`time::now_duration`).
+  fn clock(&self) {}
 }
 
 static HOOK: parking_lot::RwLock<Option<Arc<dyn SchedHook>>> = parking_lot::RwLock::new(None);
@@ -41,6 +43,13 @@ fn current() -> Option<Arc<dyn SchedHook>> {
 pub(crate) fn point(label: &'static str) {
   if let Some(h) = current() {
     h.point(label);
+  }
+}
+
+#[inline]
+pub(crate) fn clock() {
+  if let Some(h) = current() {
+    h.clock();
   }
 }
 
